@@ -7,6 +7,7 @@ import (
 	"encoding/hex"
 	"errors"
 	"fmt"
+	"runtime"
 	"strconv"
 	"time"
 
@@ -18,7 +19,14 @@ import (
 )
 
 // the simulated device reports the time its scripted reads take to the clock seam of the scratch copy
-func init() { dev.ClockJump = func(ms int64) { zzclock.Jump(ms) } }
+func init() {
+	dev.ClockJump = func(ms int64) { zzclock.Jump(ms) }
+	dev.GCNow = func() {
+		runtime.GC()
+		runtime.GC()
+		time.Sleep(time.Millisecond)
+	}
+}
 
 func q(s string) string { return strconv.QuoteToASCII(s) }
 
